@@ -259,7 +259,38 @@ func c27LiteralShortcut(p *an.Prog, r *an.R) {
 			n++
 			fname := an.FuncName(fn)
 			key := fname + "/literal-shortcut/fold-flag-consulted"
-			if why, ok := exceptions[fname]; ok {
+			// the regexp can never be a bare literal when it was parsed from a pattern that ends in an anchor
+			anchored := false
+			ast.Inspect(d.Decl.Body, func(m ast.Node) bool {
+				as, ok := m.(*ast.AssignStmt)
+				if !ok || len(as.Rhs) != 1 || len(as.Lhs) == 0 || !isIdentOf(info, as.Lhs[0], robj) {
+					return true
+				}
+				pc, ok := ast.Unparen(as.Rhs[0]).(*ast.CallExpr)
+				if !ok || len(pc.Args) == 0 {
+					return true
+				}
+				if cal := an.Callee(info, pc); cal == nil || cal.Name() != "Parse" {
+					return true
+				}
+				pat := pc.Args[0]
+				if dd := defOf(info, d.Decl.Body, pat); dd != nil {
+					pat = dd
+				}
+				ast.Inspect(pat, func(k ast.Node) bool {
+					if e, ok := k.(ast.Expr); ok {
+						if sv, ok := an.StringConst(info, e); ok && strings.HasSuffix(sv, "$") {
+							anchored = true
+						}
+					}
+					return true
+				})
+				return true
+			})
+			if why, ok := exceptions[fname]; ok || anchored {
+				if !ok {
+					why = "the pattern is built from a format that ends in `$`: it never parses to a bare literal"
+				}
 				r.OK("C27.R5", key, cl.Pos(), "exception: "+why)
 				r.Except(fname, why)
 				return true
@@ -278,8 +309,19 @@ func c27LiteralShortcut(p *an.Prog, r *an.R) {
 			consulted := false
 			// (a) an enclosing condition mentions R.Flags
 			for i := len(stack) - 2; i >= 0; i-- {
-				if is, ok := stack[i].(*ast.IfStmt); ok && usesFlags(is.Cond) {
-					consulted = true
+				if is, ok := stack[i].(*ast.IfStmt); ok && (usesFlags(is.Cond) || usesFlags(an.InlinePredicates(info, is.Cond))) {
+					consulted = true // directly, or inside a small predicate helper such as isPlainLiteral(r)
+				}
+			}
+			// (a') every path to the literal passes a test that found the flag clear (early-return style,
+			// possibly inside a predicate helper)
+			if !consulted {
+				cg := an.NewG(info, d.Decl.Body)
+				if l, ok := cg.Find(cl); ok {
+					consulted = cg.GuardedBy(l, func(cond ast.Expr, truth bool) bool {
+						f, isCmp := an.IntCompare(info, cond, truth, func(e ast.Expr) bool { return usesFlags(e) })
+						return isCmp && f.AtMost(0) && f.AtLeast(0)
+					}, nil)
 				}
 			}
 			// (b) the literal's CaseSensitive field derives from R.Flags (directly or through one local)
